@@ -25,6 +25,16 @@ CLAIMED = {
              "regenerated from config.json; unit constants are scraped from the Rust source on every run. Text->token step and "
              "model-vs-code tie: per-run differential check incl. printed output parsed back.",
         design="DESIGN.md section 7 C10", technique="Coq proof (lia with div/mod, induction on part lists, finite tables by vm_compute) + model/implementation correspondence"),
+    "C04": dict(
+        text="Theorems over the API state machine (Corr.step) for ALL histories: exec leaves configuration and sessions "
+             "unchanged and its result is a function of (configuration, language, text, clock); any history of evaluations and "
+             "session activity leaves the configuration unchanged, so earlier evaluations never change a later result; each exec "
+             "starts from the empty environment; operations on other sessions never change a session; set_text followed by "
+             "execute_session is the in-order fold of the line evaluator over every line of the new text exactly once "
+             "(status true, one slot per line) against the session's persistent variables, for any earlier cursor position. The "
+             "model-vs-code tie is the per-run history-based differential check, with an independent oracle comparing against "
+             "freshly built calculators.",
+        design="DESIGN.md section 7 C04", technique="Coq proof by induction over operation histories (state-machine invariants, refinement to a fold) + model/implementation correspondence on histories"),
 }
 
 PENDING_REASON = "check not built yet (work in progress; see DESIGN.md section 7)"
